@@ -16,12 +16,12 @@ var prims map[string]primFn
 
 func init() {
 	prims = map[string]primFn{
-		"nondetBool":   pNondetBool,
-		"nondetU8":     func(in *Interp, fn *ssa.Function, a []Value) Value { return in.freshBV(tagOf(a[0]), 8) },
-		"nondetU32":    func(in *Interp, fn *ssa.Function, a []Value) Value { return in.freshBV(tagOf(a[0]), 32) },
-		"nondetU64":    func(in *Interp, fn *ssa.Function, a []Value) Value { return in.freshBV(tagOf(a[0]), 64) },
-		"nondetI64":    func(in *Interp, fn *ssa.Function, a []Value) Value { return in.freshBV(tagOf(a[0]), 64) },
-		"nondetInt":    func(in *Interp, fn *ssa.Function, a []Value) Value { return in.freshBV(tagOf(a[0]), 64) },
+		"nondetBool": pNondetBool,
+		"nondetU8":   func(in *Interp, fn *ssa.Function, a []Value) Value { return in.freshBV(tagOf(a[0]), 8) },
+		"nondetU32":  func(in *Interp, fn *ssa.Function, a []Value) Value { return in.freshBV(tagOf(a[0]), 32) },
+		"nondetU64":  func(in *Interp, fn *ssa.Function, a []Value) Value { return in.freshBV(tagOf(a[0]), 64) },
+		"nondetI64":  func(in *Interp, fn *ssa.Function, a []Value) Value { return in.freshBV(tagOf(a[0]), 64) },
+		"nondetInt":  func(in *Interp, fn *ssa.Function, a []Value) Value { return in.freshBV(tagOf(a[0]), 64) },
 		"nondetMathI64": func(in *Interp, fn *ssa.Function, a []Value) Value {
 			t := in.freshInt(tagOf(a[0]))
 			in.assume(tAnd(intCmp(">=", t, symInt("(- 9223372036854775808)")), intCmp("<=", t, symInt("9223372036854775807"))))
@@ -38,38 +38,53 @@ func init() {
 		"or":           func(in *Interp, fn *ssa.Function, a []Value) Value { return tOr(termList(a[0])...) },
 		"implies":      func(in *Interp, fn *ssa.Function, a []Value) Value { return tImplies(a[0].(Term), a[1].(Term)) },
 		"not":          func(in *Interp, fn *ssa.Function, a []Value) Value { return tNot(a[0].(Term)) },
-		"iteU32":       func(in *Interp, fn *ssa.Function, a []Value) Value { return tIte(a[0].(Term), a[1].(Term), a[2].(Term)) },
-		"iteU64":       func(in *Interp, fn *ssa.Function, a []Value) Value { return tIte(a[0].(Term), a[1].(Term), a[2].(Term)) },
-		"iteInt":       func(in *Interp, fn *ssa.Function, a []Value) Value { return tIte(a[0].(Term), a[1].(Term), a[2].(Term)) },
-		"iteStr":       func(in *Interp, fn *ssa.Function, a []Value) Value { return tIte(a[0].(Term), a[1].(Term), a[2].(Term)) },
-		"mapPutIf":     pMapPutIf,
-		"mapHas":       pMapHas,
-		"mapSlots":     func(in *Interp, fn *ssa.Function, a []Value) Value { return mkBV(64, uint64(len(a[0].(*MapObj).Slots))) },
-		"mapCap":       func(in *Interp, fn *ssa.Function, a []Value) Value { a[0].(*MapObj).Cap = int(a[1].(Term).U); return nil },
-		"snapshot":     func(in *Interp, fn *ssa.Function, a []Value) Value { return in.snapshot(a[0], map[interface{}]Value{}) },
-		"deepEq":       func(in *Interp, fn *ssa.Function, a []Value) Value { return in.deepEq(a[0], a[1], 0) },
-		"bytesEq":      func(in *Interp, fn *ssa.Function, a []Value) Value { return in.bytesEq(a[0].(Slice), a[1].(Slice)) },
-		"mutate":       pMutate,
-		"sameBacking":  pSameBacking,
-		"param":        pParam,
-		"guardBy":      pGuardBy,
-		"freeze":       pFreeze,
-		"held":         pHeld,
-		"notHeld":      func(in *Interp, fn *ssa.Function, a []Value) Value { return tNot(pHeld(in, fn, a).(Term)) },
-		"ghostLog":     pGhostLog,
-		"ghostCount":   pGhostCount,
-		"ghostSet":     func(in *Interp, fn *ssa.Function, a []Value) Value { in.ghost[tagOf(a[0])] = a[1]; return nil },
-		"ghostGetInt":  pGhostGetInt,
-		"blobMake":     pBlobMake,
-		"blobOpen":     pBlobOpen,
-		"blobIs":       pBlobIs,
-		"envChan":      pEnvChan,
+		"iteU32": func(in *Interp, fn *ssa.Function, a []Value) Value {
+			return tIte(a[0].(Term), a[1].(Term), a[2].(Term))
+		},
+		"iteU64": func(in *Interp, fn *ssa.Function, a []Value) Value {
+			return tIte(a[0].(Term), a[1].(Term), a[2].(Term))
+		},
+		"iteInt": func(in *Interp, fn *ssa.Function, a []Value) Value {
+			return tIte(a[0].(Term), a[1].(Term), a[2].(Term))
+		},
+		"iteStr": func(in *Interp, fn *ssa.Function, a []Value) Value {
+			return tIte(a[0].(Term), a[1].(Term), a[2].(Term))
+		},
+		"mapPutIf": pMapPutIf,
+		"mapHas":   pMapHas,
+		"mapSlots": func(in *Interp, fn *ssa.Function, a []Value) Value {
+			return mkBV(64, uint64(len(a[0].(*MapObj).Slots)))
+		},
+		"mapCap": func(in *Interp, fn *ssa.Function, a []Value) Value {
+			a[0].(*MapObj).Cap = int(a[1].(Term).U)
+			return nil
+		},
+		"snapshot":    func(in *Interp, fn *ssa.Function, a []Value) Value { return in.snapshot(a[0], map[interface{}]Value{}) },
+		"deepEq":      func(in *Interp, fn *ssa.Function, a []Value) Value { return in.deepEq(a[0], a[1], 0) },
+		"bytesEq":     func(in *Interp, fn *ssa.Function, a []Value) Value { return in.bytesEq(a[0].(Slice), a[1].(Slice)) },
+		"mutate":      pMutate,
+		"sameBacking": pSameBacking,
+		"param":       pParam,
+		"guardBy":     pGuardBy,
+		"freeze":      pFreeze,
+		"held":        pHeld,
+		"notHeld":     func(in *Interp, fn *ssa.Function, a []Value) Value { return tNot(pHeld(in, fn, a).(Term)) },
+		"ghostLog":    pGhostLog,
+		"ghostCount":  pGhostCount,
+		"ghostSet":    func(in *Interp, fn *ssa.Function, a []Value) Value { in.ghost[tagOf(a[0])] = a[1]; return nil },
+		"ghostGetInt": pGhostGetInt,
+		"blobMake":    pBlobMake,
+		"blobOpen":    pBlobOpen,
+		"blobIs":      pBlobIs,
+		"envChan":     pEnvChan,
 		"envChanDyn": func(in *Interp, fn *ssa.Function, a []Value) Value {
 			return &ChanObj{Env: tagOf(a[0]), EnvReady: a[1], EnvTake: a[2], ID: in.newID()}
 		},
-		"mapReads":     func(in *Interp, fn *ssa.Function, a []Value) Value { return mkBV(64, uint64(a[0].(*MapObj).ReadCnt)) },
-		"mapWrites":    func(in *Interp, fn *ssa.Function, a []Value) Value { return mkBV(64, uint64(a[0].(*MapObj).WriteCnt)) },
-		"opaqueErr":    func(in *Interp, fn *ssa.Function, a []Value) Value { return in.makeErrorString(mkStr("opaque:" + tagOf(a[0]))) },
+		"mapReads":  func(in *Interp, fn *ssa.Function, a []Value) Value { return mkBV(64, uint64(a[0].(*MapObj).ReadCnt)) },
+		"mapWrites": func(in *Interp, fn *ssa.Function, a []Value) Value { return mkBV(64, uint64(a[0].(*MapObj).WriteCnt)) },
+		"opaqueErr": func(in *Interp, fn *ssa.Function, a []Value) Value {
+			return in.makeErrorString(mkStr("opaque:" + tagOf(a[0])))
+		},
 		"spawnedCount": func(in *Interp, fn *ssa.Function, a []Value) Value { return mkBV(64, uint64(len(in.spawned))) },
 		"runSpawned":   pRunSpawned,
 		"symbolic":     func(in *Interp, fn *ssa.Function, a []Value) Value { return mkBool(true) },
@@ -105,8 +120,8 @@ func init() {
 		"verifPeekString": func(in *Interp, fn *ssa.Function, a []Value) Value { return mkStr("") },
 		"jsonBlobAs":      pJSONBlobAs,
 		"guardOff":        func(in *Interp, fn *ssa.Function, a []Value) Value { in.guardsOff = true; return nil },
-		"jsonBlobKeys":   pJSONBlobKeys,
-		"blobClearTerms": pBlobClearTerms,
+		"jsonBlobKeys":    pJSONBlobKeys,
+		"blobClearTerms":  pBlobClearTerms,
 		"timeAgeNS": func(in *Interp, fn *ssa.Function, a []Value) Value {
 			now, acc := a[0].(Term), a[1].(Term)
 			toNS := func(sec Term) Term {
@@ -115,7 +130,17 @@ func init() {
 			last := tIte(tEq(toInt(acc, true), mkInt(0)), mkInt(0), toNS(acc))
 			return in.satToI64(intBin("-", toNS(now), last))
 		},
-		"noteTrace":    func(in *Interp, fn *ssa.Function, a []Value) Value { in.trace = append(in.trace, tagOf(a[0])); return nil },
+		"replayHint": func(in *Interp, fn *ssa.Function, a []Value) Value {
+			if t := a[0].(Term); !t.C {
+				in.hints = append(in.hints, t.E)
+			}
+			return nil
+		},
+		"jsonClass": func(in *Interp, fn *ssa.Function, a []Value) Value { return in.jsonClass(a[0].(Slice)) },
+		"noteTrace": func(in *Interp, fn *ssa.Function, a []Value) Value {
+			in.trace = append(in.trace, tagOf(a[0]))
+			return nil
+		},
 	}
 }
 
@@ -830,12 +855,22 @@ func (in *Interp) smallModel(neg Term) map[string]string {
 			cs = append(cs, "(str.in_re "+q+" (re.* (re.range \" \" \"~\")))")
 		}
 	}
-	if len(cs) == 0 {
+	if len(cs) == 0 && len(in.hints) == 0 {
 		return nil
 	}
-	r, m := in.sess.CheckModel("(and "+neg.E+" "+strings.Join(cs, " ")+")", in.varNames(), "assert")
-	if r == Sat {
+	all := append(append([]string{}, cs...), in.hints...)
+	if r, m := in.sess.CheckModel("(and "+neg.E+" "+strings.Join(all, " ")+")", in.varNames(), "assert"); r == Sat {
 		return m
+	}
+	if len(in.hints) > 0 {
+		if r, m := in.sess.CheckModel("(and "+neg.E+" "+strings.Join(in.hints, " ")+")", in.varNames(), "assert"); r == Sat {
+			return m
+		}
+	}
+	if len(cs) > 0 {
+		if r, m := in.sess.CheckModel("(and "+neg.E+" "+strings.Join(cs, " ")+")", in.varNames(), "assert"); r == Sat {
+			return m
+		}
 	}
 	return nil
 }
